@@ -1,4 +1,7 @@
 import HawkModel.GcLemmas
+import HawkModel.GcGen
+import HawkModel.GcCallLemmas
+import HawkModel.Gen.GcConst
 /-!
 # C07 — values live exactly as long as they are reachable
 
@@ -140,6 +143,327 @@ theorem gcrefs_clean (ops : List Op) (i : Id) (o : Obj) (h : (run ops).heap.get 
 /-- the encoding of the sentinels is the C's: one decrement of a stale `GCH_MOVED` is `GCH_UNREACHABLE`
 (the aliasing behind the defect repaired by patches/gc-stale-gcrefs.diff) -/
 theorem sentinel_alias : GCH_MOVED - 1 = GCH_UNREACHABLE := rfl
+
+/-! ## round 5: holders, soundness/completeness per generation, promotion, the pressure counters -/
+
+/-- **never released while held**: a container with an external holder (variable, stack slot, API holder) is
+in the heap, and its count is at least the number of its holders -/
+theorem held_never_released (ops : List Op) (i : Id) (h : i ∈ (run ops).roots) :
+    ∃ o, (run ops).heap.get i = some o ∧ (run ops).roots.count i ≤ o.refs ∧ 0 < o.refs := by
+  obtain ⟨o, ho, _⟩ := (inv_run ops).c.rootsLive i h
+  refine ⟨o, ho, ?_, (acyclic_immediate ops i o ho).1⟩
+  have := ledger ops i o ho
+  omega
+
+/-- **released at once when the last holder goes**: if the only reference to a container is one external holder
+(count 1, so by the ledger no container element refers to it), the `refdownval` of that holder frees it within
+the same operation -/
+theorem last_holder_releases (ops : List Op) (o : Id) (ob : Obj) (h : (run ops).heap.get o = some ob)
+    (h1 : ob.refs = 1) (hr : o ∈ (run ops).roots) : (run (ops ++ [.dropRoot o])).heap.get o = none := by
+  rw [run_snoc]
+  simp only [step, dropRoot, hr, if_true, Option.getD_some]
+  exact refdown_last _ o ob h h1
+
+/-- … and a container that keeps another holder or a referring element is not freed by that `refdownval` -/
+theorem other_reference_keeps (ops : List Op) (o : Id) (ob : Obj) (h : (run ops).heap.get o = some ob)
+    (h2 : 2 ≤ ob.refs) (hr : o ∈ (run ops).roots) :
+    (run (ops ++ [.dropRoot o])).heap.get o = some { ob with refs := ob.refs - 1 } := by
+  rw [run_snoc]
+  simp only [step, dropRoot, hr, if_true, Option.getD_some]
+  exact refdown_other _ o ob h h2
+
+/-- **collector soundness**: a container that `hawk_rtx_gc (gen)` (any `gen`) removes from the heap was not
+reachable from any holder when the collection started -/
+theorem collect_sound (ops : List Op) (gen : Int) (o : Id) (ob : Obj) (h : (run ops).heap.get o = some ob)
+    (hfreed : (run (ops ++ [.gc gen])).heap.get o = none) : ¬ Reach (run ops) o := by
+  intro hr
+  have := (collect_keeps_reachable ops gen o hr).1
+  rw [hfreed] at this
+  cases this
+
+/-- a collection changes no holder and no element of a surviving container, and creates nothing -/
+theorem collect_frame (ops : List Op) (gen : Int) :
+    (run (ops ++ [.gc gen])).roots = (run ops).roots ∧
+    ∀ i o', (run (ops ++ [.gc gen])).heap.get i = some o' →
+      ∃ o, (run ops).heap.get i = some o ∧ o'.children = o.children := by
+  have hrun : run (ops ++ [.gc gen]) = (gc (run ops) gen).1 := by simp [run, step]
+  rw [hrun]
+  obtain ⟨g, hg, he, _⟩ := gc_eq (run ops) gen
+  rw [he]
+  obtain ⟨_, hroots, hframe, _⟩ := inv_collectGen (run ops) g hg (inv_run ops)
+  exact ⟨hroots, hframe⟩
+
+/-- **promotion**: after `hawk_rtx_gc (n)`, `n ∈ {0,1,2}`, a survivor that was in one of the collected lists
+(generation `≤ n`) is chained in generation `min (n+1) 2`; a container of an older generation stays where it was;
+every survivor carries `GCH_MOVED` (no count of `gc_trace_refs`, no `GCH_UNREACHABLE` is left behind) and the
+ledger holds for it (`ledger`) -/
+theorem promotion (ops : List Op) (n : Nat) (hn : n ≤ 2) (i : Id) (o9 : Obj)
+    (h : (run (ops ++ [.gc (n : Int)])).heap.get i = some o9) :
+    ∃ o, (run ops).heap.get i = some o ∧ o9.gcRefs = GCH_MOVED ∧
+      ((o.gen ≤ n ∧ o9.gen = (if n < 2 then n + 1 else n)) ∨ (n < o.gen ∧ o9.gen = o.gen)) := by
+  have hclean := gcrefs_clean (ops ++ [.gc (n : Int)]) i o9 h
+  rw [run_snoc] at h
+  have h' : ((gc (run ops) (n : Int)).1).heap.get i = some o9 := h
+  rw [(gc_explicit (run ops) n hn).1] at h'
+  obtain ⟨o, ho, hcase⟩ := collectGen_gen (run ops) n hn (inv_run ops) i o9 h'
+  have hgen1 : 1 ≤ o9.gen := by
+    rcases hcase with ⟨_, hg, _⟩ | ⟨hlt, hg⟩
+    · rw [hg]; split <;> omega
+    · omega
+  refine ⟨o, ho, ?_, ?_⟩
+  · rcases hclean.2.2 with ⟨h0, _⟩ | ⟨_, hm⟩
+    · omega
+    · exact hm
+  · rcases hcase with ⟨hle, hg, _⟩ | ⟨hlt, hg⟩
+    · exact Or.inl ⟨hle, hg⟩
+    · exact Or.inr ⟨hlt, hg⟩
+
+/-- … in particular the collected lists are empty afterwards: no container is left in a generation `≤ n`
+(for `n < 2`) -/
+theorem collected_lists_empty (ops : List Op) (n : Nat) (hn : n < 2) (i : Id) (o9 : Obj)
+    (h : (run (ops ++ [.gc (n : Int)])).heap.get i = some o9) : n < o9.gen := by
+  obtain ⟨o, _, _, hcase⟩ := promotion ops n (by omega) i o9 h
+  rcases hcase with ⟨_, hg⟩ | ⟨hlt, hg⟩
+  · rw [hg]; simp [hn]
+  · omega
+
+/-- **completeness of a collection of generation `n`** (arbitrary object graph across the generations): a
+container of a collected list (generation `≤ n`) that cannot be reached from an external holder nor from an
+element of a container of an older generation is freed by `hawk_rtx_gc (n)` — cycles included.
+(`cyclic_by_full_gc` is the case `n = 2`, where no older generation exists.) -/
+theorem young_collect_complete (ops : List Op) (n : Nat) (hn : n ≤ 2) (i : Id) (o : Obj)
+    (h0 : (run ops).heap.get i = some o) (hle : o.gen ≤ n) (hu : ¬ ReachG (run ops) n i) :
+    (run (ops ++ [.gc (n : Int)])).heap.get i = none := by
+  rw [run_snoc]
+  show ((gc (run ops) (n : Int)).1).heap.get i = none
+  rw [(gc_explicit (run ops) n hn).1]
+  cases h9 : (collectGen (run ops) n).heap.get i with
+  | none => rfl
+  | some o9 => exact absurd (young_collect_reach (run ops) n hn (inv_run ops) i o o9 h0 hle h9) hu
+
+/-- the converse, soundness per generation: what a collection of generation `n` can reach from a holder or from
+an older generation is kept -/
+theorem young_collect_sound (ops : List Op) (n : Nat) (hn : n ≤ 2) (i : Id) (h : ReachG (run ops) n i) :
+    ((run ops).heap.get i).isSome ∧ ((run (ops ++ [.gc (n : Int)])).heap.get i).isSome ∨
+    (∃ p ob, (run ops).heap.get p = some ob ∧ n < ob.gen ∧ ¬ Reach (run ops) p) := by
+  -- either the whole chain starts at a holder (then `collect_keeps_reachable` applies) or at an old container
+  -- that is itself garbage (and may be released, together with what it holds, by the cascade of this collection)
+  by_cases hex : ∃ p ob, (run ops).heap.get p = some ob ∧ n < ob.gen ∧ ¬ Reach (run ops) p
+  · exact Or.inr hex
+  · left
+    have hreach : Reach (run ops) i := by
+      induction h with
+      | root hm => exact Reach.root hm
+      | @old p c ob hp hlt hc =>
+        have : Reach (run ops) p := by
+          cases Classical.em (Reach (run ops) p) with
+          | inl hr => exact hr
+          | inr hnr => exact absurd ⟨p, ob, hp, hlt, hnr⟩ hex
+        exact Reach.step this hp hc
+      | step _ hp hc ih => exact Reach.step ih hp hc
+    exact ⟨safety ops i hreach, (collect_keeps_reachable ops (n : Int) i hreach).1⟩
+
+/-- **the counters after a collection**: `pressure[n+1]++, pressure[n] = 0, pressure[0] = 0`, thresholds untouched —
+whatever the refcount cascades inside the collection did -/
+theorem gc_counters (ops : List Op) (n : Nat) (hn : n ≤ 2) :
+    (run (ops ++ [.gc (n : Int)])).p0 = 0 ∧
+    ((run (ops ++ [.gc (n : Int)])).t0, (run (ops ++ [.gc (n : Int)])).t1, (run (ops ++ [.gc (n : Int)])).t2) =
+      ((run ops).t0, (run ops).t1, (run ops).t2) ∧
+    (n = 0 → (run (ops ++ [.gc (n : Int)])).p1 = (run ops).p1 + 1 ∧ (run (ops ++ [.gc (n : Int)])).p2 = (run ops).p2 ∧
+             (run (ops ++ [.gc (n : Int)])).p3 = (run ops).p3) ∧
+    (n = 1 → (run (ops ++ [.gc (n : Int)])).p1 = 0 ∧ (run (ops ++ [.gc (n : Int)])).p2 = (run ops).p2 + 1 ∧
+             (run (ops ++ [.gc (n : Int)])).p3 = (run ops).p3) ∧
+    (n = 2 → (run (ops ++ [.gc (n : Int)])).p1 = (run ops).p1 ∧ (run (ops ++ [.gc (n : Int)])).p2 = 0 ∧
+             (run (ops ++ [.gc (n : Int)])).p3 = (run ops).p3 + 1) := by
+  have hrun : run (ops ++ [.gc (n : Int)]) = collectGen (run ops) n := by
+    rw [run_snoc]; exact (gc_explicit (run ops) n hn).1
+  rw [hrun]
+  have hc := collectGen_counters (run ops) n
+  simp only [St.counters, Prod.mk.injEq] at hc
+  obtain ⟨c0, c1, c2, c3, c4, c5, c6⟩ := hc
+  have : n = 0 ∨ n = 1 ∨ n = 2 := by omega
+  rcases this with rfl | rfl | rfl <;> simp_all [bumpPressure]
+
+/-- **which generation a collection by pressure takes** (`gc_collect_garbage_auto`, also `hawk_rtx_gc (-1)`):
+the oldest generation whose pressure has reached its threshold, generation 0 otherwise -/
+theorem auto_collect_choice (s : St) (gen : Int) (hneg : gen < 0) :
+    (gc s gen).2 = (if s.t2 ≤ s.p2 then 2 else if s.t1 ≤ s.p1 then 1 else 0) ∧
+    (gc s gen).1 = collectGen s (gc s gen).2 := by
+  unfold gc collectAuto
+  simp only [hneg, if_true]
+  by_cases h2 : s.p2 ≥ s.t2
+  · simp [h2]
+  · by_cases h1 : s.p1 ≥ s.t1
+    · simp [h2, h1]
+    · simp [h2, h1]
+
+/-- **the trigger in `gc_calloc_val`**: below the threshold an allocation collects nothing (heap unchanged but for the
+new container, `pressure[0]++`); at or above it a collection by pressure runs first, so `pressure[0]` restarts at 1 -/
+theorem alloc_trigger (ops : List Op) :
+    ((run ops).p0 < (run ops).t0 →
+      (run (ops ++ [.alloc])).heap = (run ops).heap ++ [some { refs := 1, gcRefs := 0, gen := 0, children := [] }] ∧
+      (run (ops ++ [.alloc])).p0 = (run ops).p0 + 1 ∧ (run (ops ++ [.alloc])).p1 = (run ops).p1) ∧
+    ((run ops).t0 ≤ (run ops).p0 →
+      (run (ops ++ [.alloc])).heap =
+        (collectAuto (run ops)).1.heap ++ [some { refs := 1, gcRefs := 0, gen := 0, children := [] }] ∧
+      (run (ops ++ [.alloc])).p0 = 1) := by
+  rw [run_snoc]
+  refine ⟨fun hlt => ?_, fun hge => ?_⟩
+  · have : ¬ (run ops).p0 ≥ (run ops).t0 := by omega
+    simp [step, alloc, this]
+  · have hge' : (run ops).p0 ≥ (run ops).t0 := hge
+    simp only [step, alloc, hge', if_true]
+    have hc : (collectAuto (run ops)).1.p0 = 0 := by
+      unfold collectAuto
+      split
+      · have := collectGen_counters (run ops) 2
+        simp only [St.counters, Prod.mk.injEq] at this
+        rw [this.1]; rfl
+      · split
+        · have := collectGen_counters (run ops) 1
+          simp only [St.counters, Prod.mk.injEq] at this
+          rw [this.1]; rfl
+        · have := collectGen_counters (run ops) 0
+          simp only [St.counters, Prod.mk.injEq] at this
+          rw [this.1]; rfl
+    simp [hc]
+
+/-- the counters move only in allocations, collections and threshold changes: storing, deleting, overwriting,
+clearing, taking and dropping references — with all the cascades of releases they start — leave all seven alone -/
+theorem refcount_ops_keep_counters (s : St) (op : Op)
+    (hop : match op with | .alloc | .gc _ | .setThr _ _ => False | _ => True) :
+    (step s op).counters = s.counters := by
+  cases op with
+  | alloc => cases hop
+  | gc _ => cases hop
+  | setThr _ _ => cases hop
+  | link p c =>
+    show ((link s p c).getD s).counters = _
+    cases hl : link s p c with
+    | none => rfl
+    | some s' => exact link_counters hl
+  | unlink p c =>
+    show ((unlink s p c).getD s).counters = _
+    cases hl : unlink s p c with
+    | none => rfl
+    | some s' => exact unlink_counters hl
+  | relink p c d =>
+    show ((relink s p c d).getD s).counters = _
+    cases hl : relink s p c d with
+    | none => rfl
+    | some s' => exact relink_counters hl
+  | clear p =>
+    show ((clear s p).getD s).counters = _
+    cases hl : clear s p with
+    | none => rfl
+    | some s' => exact clear_counters hl
+  | addRoot o =>
+    show ((addRoot s o).getD s).counters = _
+    cases hl : addRoot s o with
+    | none => rfl
+    | some s' => exact addRoot_counters hl
+  | take p c =>
+    show ((take s p c).getD s).counters = _
+    cases hl : take s p c with
+    | none => rfl
+    | some s' => exact take_counters hl
+  | dropRoot o =>
+    show ((dropRoot s o).getD s).counters = _
+    cases hl : dropRoot s o with
+    | none => rfl
+    | some s' => exact dropRoot_counters hl
+
+/-- **close returns every block after any history** — `teardown_empty` started from ANY state satisfying the
+invariant, not only from the states `run ops` (a program cut short by `exit` or by a run-time error leaves such a
+state: every prefix of a history is a history, and the frames unwound on the way are `dropRoot`s) -/
+theorem teardown_empty_inv (s : St) (h : Inv s) :
+    (∀ i, (teardown s).heap.get i = none) ∧ (teardown s).fault = false ∧ (teardown s).roots = [] := by
+  obtain ⟨hinv, hroots⟩ := dropAll_spec s.roots s h rfl
+  unfold teardown
+  obtain ⟨g, _, he, h3, _⟩ := gc_eq (s.roots.foldl (fun s r => (dropRoot s r).getD s) s) 2147483647
+  have hg2 : g = 2 := h3 (by omega)
+  subst hg2
+  rw [he]
+  obtain ⟨hinv', hroots', _, _⟩ := inv_collectGen _ 2 (by omega) hinv
+  refine ⟨?_, hinv'.c.nofault, by rw [hroots', hroots]⟩
+  intro i
+  cases hi : (collectGen (s.roots.foldl (fun s r => (dropRoot s r).getD s) s) 2).heap.get i with
+  | none => rfl
+  | some o =>
+    exfalso
+    have hr := full_collect_reach _ hinv i o hi
+    exact no_reach_of_no_roots (by rw [hroots', hroots]) hr
+
+/-! ### call frames (lib/run.c `hawk_rtx_callfun`/`hawk_rtx_evalcall`/`run_block`; model: HawkModel/GcCall.lean) -/
+
+/-- a history in which the host also calls hawk functions (arguments, locals and the return-value slot of the frame
+are holders; bodies end by `return`, `exit` or a run-time error) reaches a state that a history of core operations
+reaches: **every theorem of this file about `run ops` holds for it** -/
+theorem calls_are_histories (xs : List XOp) : ∃ ops, xrun xs = run ops := xrun_is_run xs
+
+/-- **a call is balanced**: after `hawk_rtx_callfun` the external holders are those from before the call plus the
+host's one reference to a returned container; the frame has let go of everything — and the ledger is exact again -/
+theorem call_balanced (xs : List XOp) (f : Fn) (a b : Id) (s' : St) (h : call (xrun xs) f a b = some s') :
+    s'.roots = retHolder f a (xrun xs).heap.length ++ (xrun xs).roots ∧
+    s'.fault = false ∧
+    ∀ i o, s'.heap.get i = some o → o.refs = s'.roots.count i + inDeg s'.heap i := by
+  obtain ⟨ops, hops⟩ := xrun_is_run xs
+  have hinv : Inv (xrun xs) := by rw [hops]; exact inv_run ops
+  obtain ⟨hinv', hroots⟩ := call_roots (xrun xs) hinv f a b s' h
+  refine ⟨hroots, hinv'.c.nofault, fun i o hi => ?_⟩
+  have := hinv'.c.ledger i o hi (hinv'.unmarked hi)
+  simpa using this
+
+/-- **close gives back every container after any history with calls** — also when called functions ended by a
+run-time error or by `exit` with containers in their frames -/
+theorem teardown_empty_calls (xs : List XOp) :
+    (∀ i, (teardown (xrun xs)).heap.get i = none) ∧ (teardown (xrun xs)).fault = false := by
+  obtain ⟨ops, hops⟩ := xrun_is_run xs
+  rw [hops]
+  exact teardown_empty ops
+
+/-- a call whose frame held the last references: `cyc`/`fail`/`quit` leave their local container behind as cyclic
+garbage (it refers to itself), which the next collection of generation 0 frees — unless … nothing: it has no holder
+and nothing older refers to it (`young_collect_complete` applies to the state after the call) -/
+example : (call (xrun [.core .alloc]) .cyc 0 0).isSome = true := by decide
+
+/-- **tie to the source**: the sentinels, the number of generations (`TMP`, the local list `reachable`, is the first
+index that is not a generation) and the initial thresholds of the hand-written model are the values
+extract/gc_const.py reads from lib/val.c, lib/hawk-prv.h and lib/run.c of the checked tree on every run
+(lean/HawkModel/Gen/GcConst.lean is regenerated; the extractor also checks the order of the collector's phases, the
+promotion rule, the counter updates and the `>=` of the two pressure tests, and fails closed) -/
+theorem consts_match_source :
+    GCH_MOVED = Gen.gchMoved ∧ GCH_UNREACHABLE = Gen.gchUnreachable ∧ TMP = Gen.numGens ∧
+    ({} : St).t0 = Gen.thr0 ∧ ({} : St).t1 = Gen.thr1 ∧ ({} : St).t2 = Gen.thr2 ∧
+    ({} : St).p0 = 0 ∧ ({} : St).p1 = 0 ∧ ({} : St).p2 = 0 ∧ ({} : St).p3 = 0 := by decide
+
+/-! ### non-vacuity of the round-5 theorems -/
+
+/-- `last_holder_releases`: one holder, count 1 -/
+example : (run [.alloc]).heap.get 0 = some { refs := 1, gcRefs := 0, gen := 0, children := [] } ∧ 0 ∈ (run [.alloc]).roots :=
+  ⟨rfl, by decide⟩
+/-- `other_reference_keeps`: a holder and a referring element, count 2 -/
+example : (run [.alloc, .alloc, .link 1 0]).heap.get 0 = some { refs := 2, gcRefs := 0, gen := 0, children := [] } ∧
+    0 ∈ (run [.alloc, .alloc, .link 1 0]).roots := ⟨rfl, by decide⟩
+/-- `young_collect_complete`: a young self-referring container without holder is not `ReachG … 0` (no holder at all,
+no container of an older generation), it has generation `0 ≤ 0` — the theorem frees it in `gc 0` -/
+example : ¬ ReachG (run [.alloc, .link 0 0, .dropRoot 0]) 0 0 := by
+  intro h
+  have hall : ∀ i o, (run [.alloc, .link 0 0, .dropRoot 0]).heap.get i = some o → o.gen ≤ 0 := by
+    intro i o hi
+    have : (run [.alloc, .link 0 0, .dropRoot 0]).heap = [some { refs := 1, gcRefs := 0, gen := 0, children := [0] }] := rfl
+    rw [this] at hi
+    match i, hi with
+    | 0, hi => simp [Heap.get] at hi; subst hi; simp
+    | (k+1), hi => simp [Heap.get] at hi
+  exact no_reach_of_no_roots rfl (reachG_reach hall h)
+/-- `promotion` / `young_collect_sound`: a held container is `ReachG` and is promoted, not freed, by `gc 0` -/
+example : ReachG (run [.alloc]) 0 0 := ReachG.root (by decide)
+/-- `promotion` / `collected_lists_empty`: a held young container survives `gc 0` (so there are survivors to speak of) -/
+example : ((run ([.alloc] ++ [.gc 0])).heap.get 0).isSome :=
+  (collect_keeps_reachable [.alloc] 0 0 (Reach.root (by decide))).1
+/-- `alloc_trigger`: both branches occur (default threshold 100; threshold 0 collects in every allocation) -/
+example : (run []).p0 < (run []).t0 ∧ (run [.setThr 0 0]).t0 ≤ (run [.setThr 0 0]).p0 := by decide
 
 /-! ## non-vacuity -/
 
